@@ -1,0 +1,18 @@
+//go:build verif
+
+package discovery
+
+import "sync/atomic"
+
+// Instrumentation for the verification harness; compiled only with the build tag "verif".
+
+var verifHook atomic.Value // func(string)
+
+// SetVerifHook installs a function that is invoked at every verifPoint.
+func SetVerifHook(f func(string)) { verifHook.Store(f) }
+
+func verifPoint(p string) {
+	if f, ok := verifHook.Load().(func(string)); ok && f != nil {
+		f(p)
+	}
+}
